@@ -414,7 +414,12 @@ pub fn eval_limit(case: &J) -> Outcome {
 
 pub fn gen_c04(rng: &mut Rng, _k: usize, _tier: &str) -> J {
     // grouped by a private-valued key (thresholded), optionally with a public-valued one
-    let (sql, keycols) = match rng.below(7) {
+    let (sql, keycols) = match rng.below(11) {
+        // reduces whose outputs are all computed from the grouping column: nothing to noise, but the keys are private and have to be thresholded all the same
+        7 => ("SELECT age AS k0 FROM users GROUP BY age".to_string(), vec!["age"]),
+        8 => ("SELECT DISTINCT age AS k0 FROM users".to_string(), vec!["age"]),
+        9 => ("SELECT age AS k0, count(age) AS c FROM users GROUP BY age".to_string(), vec!["age"]),
+        10 => ("SELECT qty AS k0, sum(qty) AS c FROM orders GROUP BY qty".to_string(), vec!["qty"]),
         // keys whose values are public (listed by the column type): every listed value is released, whatever the data
         5 => ("SELECT city AS k0, count(id) AS c, sum(income) AS s FROM users GROUP BY city".to_string(), vec!["city"]),
         6 => ("SELECT city AS k0, avg(age) AS c FROM users WHERE city IN ('A', 'B') GROUP BY city".to_string(), vec!["city"]),
@@ -454,7 +459,27 @@ pub fn eval_c04(case: &J) -> Outcome {
         if got != want { out.fail("C02/exec/public-keys-depend-on-data", format!("{sql}: the grouping column lists the public values {:?}, the data holds {:?}, the DP result releases {:?}: which keys are released depends on the protected rows without any noise", want, present, got)); }
         return out;
     }
-    if facts.taus.is_empty() { out.tag("trivial"); out.tag("no-threshold"); return out; }
+    if facts.taus.is_empty() {
+        // a private-valued key and no threshold anywhere: whatever is released is released on the strength of the data alone
+        out.tag("no-threshold");
+        let data = data_of(case);
+        let db = data.load(RandomMode::Const(0.25));
+        let res = match db.run(dp.relation()) { Ok(x) => x, Err(e) => { out.fail("C17/sqlite/dp-not-executable", format!("{sql}: {e}")); return out; } };
+        let keyname = case["keys"].as_array().unwrap().last().unwrap().as_str().unwrap();
+        let nkeys = case["keys"].as_array().unwrap().len();
+        let mut units: BTreeMap<String, std::collections::BTreeSet<i64>> = BTreeMap::new();
+        if keyname == "age" { for u in &data.users { if let (Cell::Int(id), Cell::Int(age)) = (&u[0], &u[1]) { units.entry(Cell::Int(*age).key()).or_default().insert(*id); } } }
+        else if keyname == "qty" { for o in &data.orders { if let (Cell::Int(uid), Cell::Int(q)) = (&o[1], &o[3]) { units.entry(Cell::Int(*q).key()).or_default().insert(*uid); } } }
+        else { out.tag("trivial"); return out; }
+        if res.1.is_empty() { out.tag("trivial"); }
+        for r in &res.1 {
+            let kv = r[nkeys - 1].key();
+            if units.get(&kv).map_or(0, |s| s.len()) == 1 {
+                out.fail("C02/exec/private-key-released-without-threshold", format!("{sql} with {:?}: the rewritten query has no threshold on the number of privacy units per key, and releases the key {kv} which a single privacy unit holds (released keys depend on the protected rows without any noise)", p)); break;
+            }
+        }
+        return out;
+    }
     // the threshold and the count noise must be at least what the (ε, δ) share reserved for key release requires
     let (e_t, d_t, kf) = (eps * share, delta * share, kk as f64);
     let sigma_req = (2.0 * (1.25 / d_t).ln()).sqrt() / e_t * kf.sqrt();
